@@ -193,6 +193,10 @@ class Ctx:
     local_state: dict = field(default_factory=dict)  # (account, key) -> value
     tmpl: dict = field(default_factory=dict)
     budget: int = 200000
+    # The AVM has no limit on callsub nesting (the opcode budget bounds it; MaxAppCallDepth = 8 is about inner *application* calls).
+    # The program descriptions of spec/progsem treat recursion deeper than 8 as failure (a modelling cut-off that keeps the Python
+    # evaluator's own recursion small); harnesses that compare against progsem set the same cut-off here, everything else runs without.
+    max_call_depth: int | None = None
 
 
 @dataclass
@@ -722,8 +726,8 @@ def _exec(M: Machine, prog: Program, single=False, trace=False):
             elif m == "callsub":
                 callstack.append([pc, None, 0, 0, len(stack)])
                 pc = label(im[0])
-                if len(callstack) > 8:
-                    raise Panic("call stack depth")
+                if ctx.max_call_depth is not None and len(callstack) > ctx.max_call_depth:
+                    raise Panic("call stack depth (modelling cut-off)")
             elif m == "proto":
                 a, r = int(im[0]), int(im[1])
                 if not callstack or callstack[-1][1] is not None:
